@@ -9,7 +9,7 @@ namespace Poor.HeaderValue
 def isDigit (c : Char) : Bool := '0' ≤ c && c ≤ '9'
 
 /-- value of a decimal digit string (`int(s)`); callers guarantee digits only -/
-def natOfDigits (s : Str) : Nat := s.foldl (fun acc c => acc * 10 + (c.toNat - 48)) 0
+def natOfDigits (s : Str) : Nat := ((String.ofList s).toNat?).getD 0
 
 theorem length_dropWhile_le (p : α → Bool) (l : List α) : (l.dropWhile p).length ≤ l.length := by
   induction l with
@@ -47,16 +47,19 @@ decreasing_by
 /-- CPython refuses `int()` of more than 4300 digits with ValueError -/
 def INT_MAX_DIGITS : Nat := 4300
 
-def splitOnEq (s : Str) : List Str :=
-  s.splitOn '='
+/-- `unit, pairs = value.split("=")`: exactly one `=`, else ValueError (`none`) -/
+def splitEq (value : Str) : Option (Str × Str) :=
+  match value.dropWhile (· != '=') with
+  | '=' :: pairs => if pairs.contains '=' then none else some (value.takeWhile (· != '='), pairs)
+  | _ => none
 
 abbrev RangeT := Option Nat × Option Nat
 
 /-- `parse_range`: `none` is the `{}` result (not exactly one `=`, or an integer
     too long for `int`), otherwise the unit and the pairs. -/
 def parseRange (value : Str) : Option (Str × List RangeT) :=
-  match splitOnEq value with
-  | [unit, pairs] =>
+  match splitEq value with
+  | some (unit, pairs) =>
     let raw := (scanRanges pairs).filter (fun p => !(p.1.isEmpty && p.2.isEmpty))
     if raw.any (fun p => p.1.length > INT_MAX_DIGITS || p.2.length > INT_MAX_DIGITS) then none
     else
@@ -117,14 +120,18 @@ def lowerAscii (s : Str) : Str := s.map Char.toLower
 def dictSet (d : List (Str × Str)) (k v : Str) : List (Str × Str) :=
   if d.any (fun e => e.1 == k) then d.map fun e => if e.1 == k then (k, v) else e else d ++ [(k, v)]
 
+/-- the value part of a `name=value` segment: `p[i+1:].strip()` -/
+def paramValue (p : Str) : Str := strip ((p.dropWhile (· != '=')).drop 1)
+
+/-- `if len(value) >= 2 and value[0] == value[-1] == '"': value = unescape(value[1:-1])` -/
+def unquoteIfQuoted (value : Str) : Str :=
+  if value.length ≥ 2 && value.head? = some '"' && value.getLast? = some '"'
+  then unescape ((value.drop 1).dropLast) else value
+
 /-- one `name=value` parameter segment -/
 def parseOne (p : Str) : Option (Str × Str) :=
   if p.contains '=' then
-    let name := lowerAscii (strip (p.takeWhile (· != '=')))
-    let value := strip ((p.dropWhile (· != '=')).drop 1)
-    let value := if value.length ≥ 2 && value.head? = some '"' && value.getLast? = some '"'
-      then unescape ((value.drop 1).dropLast) else value
-    some (name, value)
+    some (lowerAscii (strip (p.takeWhile (· != '='))), unquoteIfQuoted (paramValue p))
   else none
 
 /-- `parse_header(line)`: the main value and the parameter dictionary (insertion order) -/
@@ -141,9 +148,10 @@ def escQ (v : Str) : Str :=
 /-- `name="value"` as `add_header(..., **{name: value})` renders it (non-empty value) -/
 def renderParam (k v : Str) : Str := k ++ "=\"".toList ++ escQ v ++ "\"".toList
 
-/-- a whole parameterised header value: `main; k1="v1"; k2="v2"` -/
-def renderHeader (main : Str) (ps : List (Str × Str)) : Str :=
-  main ++ ps.flatMap fun kv => "; ".toList ++ renderParam kv.1 kv.2
+/-- a whole parameterised header value: `"; ".join(parts)` with the main value (if given)
+    and one `name="value"` part per keyword -/
+def renderHeader (main : Option Str) (ps : List (Str × Str)) : Str :=
+  "; ".toList.intercalate (main.toList ++ ps.map fun kv => renderParam kv.1 kv.2)
 
 /-! ### negotiation lists -/
 
